@@ -14,21 +14,21 @@ Local Open Scope string_scope.
 
 (* every mappable class exports a well-formed draft-4 document whose $refs resolve in its definitions *)
 Definition C08_wf_statement : Prop :=
-  forall e smap fuel c, schema_mappable e fuel c = true -> wf_doc (fix_doc (to_schema e smap fuel c)) = true.
+  forall ei e smap fuel c, schema_mappable ei e fuel c = true -> wf_doc (fix_doc (to_schema ei e smap fuel c)) = true.
 
 (* every value a mappable field accepts, serialized, validates against the field's exported schema *)
 Definition C08_complete_statement : Prop :=
-  forall re_match re_search e D ss f v nf j,
+  forall ei re_match re_search e D ss f v nf j,
     (forall p s, re_match p s = true -> re_search p s = true) ->
-    mappable f = true -> field_refs f = [] ->
-    vset re_match e f v = Ok nf -> ser re_match e ss f nf = Some j ->
-    valid4 re_search D (fdepth f + 40) (fix_dialect (fschema f)) j = true.
+    mappable ei f = true -> field_refs f = [] ->
+    vset re_match e f v = Ok nf -> ser ei re_match e ss f nf = Some j ->
+    valid4 re_search D (fdepth f + 40) (fix_dialect (fschema ei f)) j = true.
 
 (* converse on the exact sub-fragment: left to the differential (boundary documents, validator-accepts
    implies Deserializer-accepts); [deser] stands for the Deserializer *)
 Definition C08_exact_statement (exact : field -> bool) (deser : field -> pyval -> bool) : Prop :=
-  forall re_search D f j,
-    exact f = true -> valid4 re_search D (fdepth f + 40) (fix_dialect (fschema f)) j = true -> deser f j = true.
+  forall ei re_search D f j,
+    exact f = true -> valid4 re_search D (fdepth f + 40) (fix_dialect (fschema ei f)) j = true -> deser f j = true.
 
 (* ------------------------------------------------------------------ theorems *)
 
@@ -37,13 +37,14 @@ Definition C08_exact_statement (exact : field -> bool) (deser : field -> pyval -
    exclusiveMaximum without a maximum, sizes/multiplesOf in draft 4's domain, non-empty distinct enums, JSON
    bounds), the emitted schema, after the two dialect translations, is a well-formed draft-4 schema, and its
    $refs resolve in any definitions D that contain the referenced classes. *)
-Theorem C08_wf : forall D f,
-    fclean f = true ->
+Theorem C08_wf : forall ei D f,
+    fclean ei f = true ->
     (forall nm, In nm (field_refs f) -> alist_has D nm = true) ->
-    wf4 D (fix_dialect (fschema f)) = true.
+    wf4 D (fix_dialect (fschema ei f)) = true.
 Proof. exact fschema_wf. Qed.
 
 Section C08.
+  Variable ei : einfo_t.                                   (* enum classes: mixed-in primitive type, by-value flag *)
   Variable re_match re_search : N -> pystr -> bool.        (* oracles: re.match / re.search *)
   Hypothesis re_match_search : forall p s, re_match p s = true -> re_search p s = true.
   Variable e : env.
@@ -57,23 +58,23 @@ Section C08.
      options — nested to any depth), every value the documented rules accept with normal form nf, once
      serialized, validates against the exported schema (after the dialect translation), for every fuel
      above the nesting depth. *)
-  Theorem C08_complete : forall f, cfrag f = true -> forall v nf j n,
+  Theorem C08_complete : forall f, cfrag ei f = true -> forall v nf j n,
       docb re_match e f v = Some nf ->
-      ser re_match e ser_struct f nf = Some j ->
+      ser ei re_match e ser_struct f nf = Some j ->
       (fdepth f <= n)%nat ->
-      valid4 re_search D n (fix_dialect (fschema f)) j = true.
-  Proof. exact (fschema_complete re_match re_search re_match_search e D ser_struct). Qed.
+      valid4 re_search D n (fix_dialect (fschema ei f)) j = true.
+  Proof. exact (fschema_complete ei re_match re_search re_match_search e D ser_struct). Qed.
 
   (* the same for the code-shaped set-chain, on C02's domain (where vset and the documented rules agree) *)
-  Theorem C08_complete_vset : forall f, cfrag f = true -> forall v nf j n,
+  Theorem C08_complete_vset : forall f, cfrag ei f = true -> forall v nf j n,
       dom f v = true ->
       vset re_match e f v = Ok nf ->
-      ser re_match e ser_struct f nf = Some j ->
+      ser ei re_match e ser_struct f nf = Some j ->
       (fdepth f <= n)%nat ->
-      valid4 re_search D n (fix_dialect (fschema f)) j = true.
+      valid4 re_search D n (fix_dialect (fschema ei f)) j = true.
   Proof.
     intros f Hc v nf j n Hdom Hv Hs Hn.
-    apply (fschema_complete re_match re_search re_match_search e D ser_struct f Hc v nf j n); auto.
+    apply (fschema_complete ei re_match re_search re_match_search e D ser_struct f Hc v nf j n); auto.
     apply (vset_decision re_match e f v nf Hdom). exact Hv.
   Qed.
 End C08.
@@ -91,19 +92,19 @@ Definition no_struct (_ : pystr) (_ : list (pystr * pyval)) : option pyval := No
 Definition tiny : num := NFlt 4835703278458517 (-82).     (* the double 1e-9 *)
 Example C08_complete_refuted_epsilon :
   let f := FNumber KFloat SPositive no_numc in
-  mappable f = true /\
+  mappable no_einfo f = true /\
   vset always [] f (PNum tiny) = Ok (PNum tiny) /\
-  ser always [] no_struct f (PNum tiny) = Some (PNum tiny) /\
-  valid4 always [] 50 (fix_dialect (fschema f)) (PNum tiny) = false.
+  ser no_einfo always [] no_struct f (PNum tiny) = Some (PNum tiny) /\
+  valid4 always [] 50 (fix_dialect (fschema no_einfo f)) (PNum tiny) = false.
 Proof. repeat split; vm_compute; reflexivity. Qed.
 
 Theorem C08_complete_refuted : ~ C08_complete_statement.
 Proof.
   intro H.
-  specialize (H always always [] [] no_struct (FNumber KFloat SPositive no_numc) (PNum tiny) (PNum tiny) (PNum tiny)
+  specialize (H no_einfo always always [] [] no_struct (FNumber KFloat SPositive no_numc) (PNum tiny) (PNum tiny) (PNum tiny)
                 (fun _ _ E => E) eq_refl eq_refl).
   assert (A : vset always [] (FNumber KFloat SPositive no_numc) (PNum tiny) = Ok (PNum tiny)) by (vm_compute; reflexivity).
-  assert (B : ser always [] no_struct (FNumber KFloat SPositive no_numc) (PNum tiny) = Some (PNum tiny)) by reflexivity.
+  assert (B : ser no_einfo always [] no_struct (FNumber KFloat SPositive no_numc) (PNum tiny) = Some (PNum tiny)) by reflexivity.
   specialize (H A B). vm_compute in H. discriminate H.
 Qed.
 Print Assumptions C08_complete_refuted.
@@ -112,7 +113,7 @@ Print Assumptions C08_complete_refuted.
 Example C08_wf_refuted_map_pattern_keys :
   let f := FMapKV (FString {| minLength := None; maxLength := None; pattern := Some 0%N |})
                   (FNumber KInteger SAny no_numc) no_sizec in
-  mappable f = true /\ wf4 [] (fix_dialect (fschema f)) = false.
+  mappable no_einfo f = true /\ wf4 [] (fix_dialect (fschema no_einfo f)) = false.
 Proof. split; vm_compute; reflexivity. Qed.
 
 (* "required": [] (a class without required fields) violates draft 4's stringArray (minItems 1) *)
@@ -123,7 +124,7 @@ Definition cls_no_required : classdef :=
 
 Theorem C08_wf_refuted : ~ C08_wf_statement.
 Proof.
-  intro H. specialize (H [] (fun _ => []) 3%nat cls_no_required eq_refl). vm_compute in H. discriminate H.
+  intro H. specialize (H no_einfo [] (fun _ => []) 3%nat cls_no_required eq_refl). vm_compute in H. discriminate H.
 Qed.
 Print Assumptions C08_wf_refuted.
 
@@ -141,10 +142,10 @@ Definition cls_t : classdef :=
 
 Example C08_complete_refuted_nested_wrapper :
   let env := [cls_w; cls_t] in
-  let doc := fix_doc (to_schema env (fun _ => []) 5 cls_t) in
+  let doc := fix_doc (to_schema no_einfo env (fun _ => []) 5 cls_t) in
   let inst := [(s2p "w", PStruct (s2p "W") [(s2p "a", PNum (NInt 1))]); (s2p "n", PNum (NInt 2))] in
   wf_doc doc = true /\
-  exists j, ser_top always env (fun _ => []) 5 cls_t inst = Some j /\
+  exists j, ser_top no_einfo always env (fun _ => []) 5 cls_t inst = Some j /\
             valid4 always (snd doc) 50 (fst doc) j = false.
 Proof.
   split; [vm_compute; reflexivity|].
@@ -167,11 +168,11 @@ Definition ex_value : pyval :=
   PDict [(PStr (s2p "k"), PList [PNum (NInt 95); PStr (s2p "yy")])].
 
 Example C08_nonvacuous :
-  cfrag ex_field = true /\ fclean ex_field = true /\
+  cfrag no_einfo ex_field = true /\ fclean no_einfo ex_field = true /\
   docb always [] ex_field ex_value = Some ex_value /\
-  ser always [] no_struct ex_field ex_value = Some ex_value /\
-  valid4 always [] (fdepth ex_field) (fix_dialect (fschema ex_field)) ex_value = true /\
+  ser no_einfo always [] no_struct ex_field ex_value = Some ex_value /\
+  valid4 always [] (fdepth ex_field) (fix_dialect (fschema no_einfo ex_field)) ex_value = true /\
   (* at the exclusive maximum the value is rejected by the field, and the document by the schema *)
-  valid4 always [] 10 (fix_dialect (fschema ex_field)) (PDict [(PStr (s2p "k"), PList [PNum (NInt 100)])]) = false /\
-  wf_doc (fix_doc (to_schema [cls_w; cls_t] (fun _ => []) 5 cls_t)) = true.
+  valid4 always [] 10 (fix_dialect (fschema no_einfo ex_field)) (PDict [(PStr (s2p "k"), PList [PNum (NInt 100)])]) = false /\
+  wf_doc (fix_doc (to_schema no_einfo [cls_w; cls_t] (fun _ => []) 5 cls_t)) = true.
 Proof. repeat split; vm_compute; reflexivity. Qed.
